@@ -26,6 +26,7 @@
 #include "oneapi/tbb/parallel_for.h"
 #include "oneapi/tbb/task_group.h"
 #include "tbb/governor.h"
+#include "tbb/arena.h"
 #include <cstdio>
 #include <fstream>
 #include <sstream>
@@ -256,7 +257,74 @@ static bool run_ex(verif::Schedule& sch, long run_idx) {
     return ok;
 }
 
+// Fourth program (plan `PK:<0|1>`): a context bound on a WORKER that has left the arena since.  A task of group P is forced onto the only worker
+// (the main thread submits it and keeps out of the dispatch loop until it has started); the task binds the persistent context X beneath P (first
+// use: task_group sub(X); sub.run_and_wait) -- X is registered in the WORKER's context list.  All work completes; with PK:1 the main thread
+// waits until the worker has run out of work and left the arena (it is parked, its thread_data has no arena slot), then cancels P; with
+// PK:0 (control) it cancels at once.  Monitor: X is bound beneath P, the cancel call returned true, nothing was reset => X is cancelled.
+static int g_pk_mode = -1;
+static std::atomic<int> g_pk_started{0}, g_pk_bound{0};
+static bool run_pk(verif::Schedule& sch, long run_idx) {
+    g_pk_started.store(0); g_pk_bound.store(0); g_done.store(0);
+    int res = -1, seen = -1, isbound = -1, on_worker = -1, left = -1;
+    new (g_store[0]) Ctx(Ctx::isolated);   // P
+    new (g_store[1]) Ctx(Ctx::bound);      // X
+    std::vector<std::function<void()>> bodies;
+    bodies.push_back([&] {
+        tbb::global_control gc(tbb::global_control::max_allowed_parallelism, 2);
+        tbb::task_scheduler_handle h{tbb::attach{}};
+        {
+            tbb::task_arena a(2, 1);
+            a.initialize();
+            tbb::task_group tg(*C(0));
+            a.execute([&] {
+                tg.run([&] {
+                    on_worker = verif::self() != 0 ? 1 : 0;
+                    g_pk_started.store(1);
+                    tbb::task_group sub(*C(1));
+                    sub.run_and_wait([] {});
+                    g_pk_bound.store(1);
+                });
+                while (!g_pk_started.load()) _mm_pause();      // stay out of the dispatch loop: the worker has to take the task
+                tg.wait();
+            });
+            isbound = (C(1)->my_state.load(std::memory_order_relaxed) == Ctx::state::bound && C(1)->my_parent == C(0)) ? 1 : 0;
+            if (g_pk_mode == 1) {
+                r1::arena* ar = a.my_arena.load(std::memory_order_relaxed);
+                long spins = 0;
+                while (ar->num_workers_active() != 0 && ++spins < 200000) _mm_pause();
+                for (int i = 0; i < 64; ++i) { (void)g_pk_bound.load(); _mm_pause(); }      // let it finish leaving and go to sleep
+                left = ar->num_workers_active() == 0 ? 1 : 0;
+            }
+            res = C(0)->cancel_group_execution() ? 1 : 0;
+            seen = (int)C(1)->my_cancellation_requested.load(std::memory_order_relaxed);
+        }
+        tbb::finalize(h);
+    });
+    verif::Result r = verif::run(bodies, sch, 6000000);
+    std::string err;
+    auto fail = [&](const std::string& m) { if (err.empty()) err = m; };
+    if (r.deadlock) fail("DEADLOCK every live thread parked (or step limit)");
+    else {
+        if (res != 1) fail("VIOLATION single-winner: the only cancel call on context P returned false");
+        if (isbound != 1) fail("VIOLATION harness: context X is not bound beneath context P");
+        else if (seen != 1)
+            fail(std::string("VIOLATION reach-parked-worker: context X is bound beneath context P (bound by a ") + (on_worker == 1 ? "worker" : "thread") + " that ran a task of P" +
+                 (g_pk_mode == 1 ? (left == 1 ? " and has left the arena since: it is parked without an arena slot" : " (the worker had not left the arena yet)") : "") +
+                 "), cancel_group_execution(P) returned true, nothing was reset, and X is not cancelled");
+    }
+    bool ok = err.empty();
+    printf("run %ld\npk-mode %d on-worker %d left %d seen %d bound %d\nsteps %zu\nmon %s\n", run_idx, g_pk_mode, on_worker, left, seen, isbound, r.steps, ok ? "ok" : err.c_str());
+    if (!ok) { printf("sched"); for (int s : r.schedule) printf(" %d", s); printf("\n"); }
+    printf("end\n");
+    fflush(stdout);
+    if (r.deadlock) _exit(3);
+    C(1)->~Ctx(); C(0)->~Ctx();
+    return ok;
+}
+
 static bool run_once(verif::Schedule& sch, long run_idx) {
+    if (g_pk_mode >= 0) return run_pk(sch, run_idx);
     if (g_tg_depth >= 0) return run_tg(sch, run_idx);
     if (g_ex_mode >= 0) return run_ex(sch, run_idx);
     g_next.store(0); g_done.store(0); g_main_done.store(0); g_tick.store(0);
@@ -299,6 +367,10 @@ int main(int argc, char** argv) {
     verif::init_determinism(argc, argv);
     if (argc < 6) return 2;
     g_P = atoi(argv[1]); g_W = atoi(argv[2]);
+    if (std::string(argv[3]).compare(0, 3, "PK:") == 0) {
+        g_pk_mode = atoi(argv[3] + 3);
+        if (g_pk_mode != 0 && g_pk_mode != 1) { printf("bad-plan\n"); return 2; }
+    } else
     if (std::string(argv[3]).compare(0, 3, "EX:") == 0) {
         g_ex_mode = atoi(argv[3] + 3);
         if (g_ex_mode != 0 && g_ex_mode != 1) { printf("bad-plan\n"); return 2; }
